@@ -121,10 +121,11 @@ static void
 macrodone(struct macro *m)
 {
 	m->hide = false;
-	if (m->kind == MACROFUNC && m->nparam > 0) {
-		free(m->arg[0].token);
-		free(m->arg);
-	}
+	/*
+	The argument tokens are not freed here: a token handed out from
+	them may still be examined (or be part of an outer argument that
+	is being collected) when the last frame of this macro is popped.
+	*/
 	--macrodepth;
 }
 
